@@ -216,6 +216,7 @@ Section Main.
   Hypothesis Hcmp : cmp = CGe.
   Hypothesis Hpk : pk = PickFirst.
   Hypothesis Hwf : wf_hier TYPE_KEY h = true.
+  Hypothesis Hinit : init_only h = true.          (* used by the search theorems only; see C14_identified_refuted *)
   (* the enumeration lists exactly the classes below, in ANY order (repetitions allowed) *)
   Hypothesis Henum : forall b n, In n (enum b) <-> In n (map c_name (descendants h b)).
 
@@ -245,7 +246,8 @@ Section Main.
   Lemma wf_fields_nodup c : In c h -> NoDup (field_names c).
   Proof.
     intros Hin. pose proof (wf_class_of c Hin) as H. unfold wf_class in H.
-    repeat (apply andb_true_iff in H as [H ?]). apply str_nodupb_NoDup, H.
+    repeat (apply andb_true_iff in H as [H ?]).
+    match goal with X : str_nodupb (field_names c) = true |- _ => apply str_nodupb_NoDup, X end.
   Qed.
 
   Lemma wf_no_type_key c : In c h -> ~ In TYPE_KEY (field_names c).
@@ -308,29 +310,41 @@ Section Main.
       + rewrite (find_class_unique h C wf_names Hin). left. reflexivity.
   Qed.
 
-  Lemma cmp_is_has_all c req : cmp_holds cmp (field_names c) req = has_all c req.
-  Proof. unfold cmp_holds. rewrite Hcmp. reflexivity. Qed.
+  Lemma init_fields_all c : In c h -> init_fields c = c_fields c.
+  Proof.
+    intros Hin. unfold init_only in Hinit. rewrite forallb_forall in Hinit. specialize (Hinit c Hin).
+    rewrite forallb_forall in Hinit. unfold init_fields. apply filter_all. exact Hinit.
+  Qed.
 
-  Lemma key_is_nfields c : key_of skey c = nfields c.
-  Proof. unfold key_of. rewrite Hskey. reflexivity. Qed.
+  Lemma cmp_is_has_all c req : In c h -> cmp_holds cmp (init_names c) req = has_all c req.
+  Proof. intros Hin. unfold cmp_holds, init_names. rewrite Hcmp, (init_fields_all c Hin). reflexivity. Qed.
+
+  Lemma key_is_nfields c : In c h -> key_of skey c = nfields c.
+  Proof. intros Hin. unfold key_of. rewrite Hskey, (init_fields_all c Hin). reflexivity. Qed.
+
+  Lemma cands_in_h b C : In C (cands b) -> In C h.
+  Proof. intros H. apply candidates_iff, in_descendants in H as [H _]. exact H. Qed.
 
   Lemma choose_some b req R : chs b req = Some R ->
     In R (descendants h b) /\ has_all R req = true
     /\ forall C, In C (descendants h b) -> has_all C req = true -> nfields R <= nfields C.
   Proof.
     unfold choose. rewrite Hpk. intros H.
-    pose proof (find_some _ _ H) as [Hin HP]. cbv beta in HP. rewrite sort_by_In in Hin. rewrite cmp_is_has_all in HP.
+    pose proof (find_some _ _ H) as [Hin HP]. cbv beta in HP. rewrite sort_by_In in Hin.
+    pose proof (cands_in_h b R Hin) as HRh. rewrite (cmp_is_has_all R req HRh) in HP.
     split; [apply candidates_iff, Hin|]. split; [exact HP|].
-    intros C HC HCa. rewrite <- !key_is_nfields.
+    intros C HC HCa. pose proof HC as HC'. apply in_descendants in HC' as [HCh _].
+    rewrite <- (key_is_nfields R HRh), <- (key_is_nfields C HCh).
     eapply (find_sorted_min (key_of skey)); [apply sort_by_sorted|exact H| |].
     - apply sort_by_In, candidates_iff, HC.
-    - cbv beta. rewrite cmp_is_has_all. exact HCa.
+    - cbv beta. rewrite (cmp_is_has_all C req HCh). exact HCa.
   Qed.
 
   Lemma choose_none b req : chs b req = None -> forall C, In C (descendants h b) -> has_all C req = false.
   Proof.
     unfold choose. rewrite Hpk. intros H C HC.
-    pose proof (find_none _ _ H C) as X. cbv beta in X. rewrite cmp_is_has_all in X. apply X.
+    pose proof HC as HC'. apply in_descendants in HC' as [HCh _].
+    pose proof (find_none _ _ H C) as X. cbv beta in X. rewrite (cmp_is_has_all C req HCh) in X. apply X.
     apply sort_by_In, candidates_iff, HC.
   Qed.
 
@@ -442,7 +456,7 @@ Section Main.
     exists present, collect (c_fields c) (dec (ftype_of c) (model_drop (c_name c) dropo)) = Ok present /\
     ( ((extras_of c keys = [] \/ model_drop (c_name c) dropo = true) /\ construct c present = Ok v)
       \/ (extras_of c keys <> [] /\ model_drop (c_name c) dropo = false /\ exists child present2,
-            chs (c_name c) (extras_of c keys ++ map fst present)%list = Some child /\
+            chs (c_name c) (extras_of c keys ++ map fst (filter (fun kv => is_init c (fst kv)) present))%list = Some child /\
             collect (c_fields child) (dec (ftype_of child) child_drop) = Ok present2 /\
             construct child present2 = Ok v) ).
   Proof.
@@ -454,7 +468,7 @@ Section Main.
     - destruct (model_drop (c_name c) dropo) eqn:Ed.
       + left. split; [right; reflexivity|exact H].
       + right. split; [discriminate|]. split; [reflexivity|].
-        destruct (chs (c_name c) ((e :: es) ++ map fst present)%list) as [child|] eqn:Ech; [|discriminate].
+        destruct (chs (c_name c) ((e :: es) ++ map fst (filter (fun kv => is_init c (fst kv)) present))%list) as [child|] eqn:Ech; [|discriminate].
         destruct (collect (c_fields child) (dec (ftype_of child) child_drop)) as [p2|] eqn:Ec2; [|discriminate].
         destruct (extras_of child keys); [|discriminate].
         exists child, p2. auto.
@@ -463,7 +477,7 @@ Section Main.
   Lemma build_child dec keys c dropo present child p2 :
     collect (c_fields c) (dec (ftype_of c) (model_drop (c_name c) dropo)) = Ok present ->
     extras_of c keys <> [] -> model_drop (c_name c) dropo = false ->
-    chs (c_name c) (extras_of c keys ++ map fst present)%list = Some child ->
+    chs (c_name c) (extras_of c keys ++ map fst (filter (fun kv => is_init c (fst kv)) present))%list = Some child ->
     collect (c_fields child) (dec (ftype_of child) child_drop) = Ok p2 ->
     extras_of child keys = [] ->
     bld dec keys c dropo = construct child p2.
@@ -501,6 +515,20 @@ Section Main.
       + left. split; [exact Hk|reflexivity].
   Qed.
 
+  Lemma filter_init_all c dec present : In c h -> collect (c_fields c) dec = Ok present ->
+    filter (fun kv => is_init c (fst kv)) present = present.
+  Proof.
+    intros Hin Hc. apply filter_all. intros kv Hkv.
+    assert (Hk : In (fst kv) (map fst present)) by (apply in_map, Hkv).
+    apply (collect_keys _ _ _ Hc) in Hk as [Hk _].
+    unfold is_init, find_field.
+    destruct (find (fun f => String.eqb (f_name f) (fst kv)) (c_fields c)) as [g|] eqn:E.
+    - apply find_some in E as [Hg _]. unfold init_only in Hinit. rewrite forallb_forall in Hinit.
+      specialize (Hinit c Hin). rewrite forallb_forall in Hinit. apply Hinit, Hg.
+    - apply in_map_iff in Hk as [f [Hn Hf]]. pose proof (find_none _ _ E f Hf) as X. cbv beta in X.
+      rewrite Hn, String.eqb_refl in X. discriminate.
+  Qed.
+
   (* ---------- C14_superset / C14_drop (class part): which class a dict loads as ---------- *)
   Theorem result_admissible base dropo kvs v :
     sf_get TYPE_KEY kvs = None ->
@@ -518,6 +546,7 @@ Section Main.
       + apply extras_nil_iff in He. rewrite He, orb_true_r. apply String.eqb_refl.
       + rewrite Hd. apply String.eqb_refl.
     - apply construct_inv in Hcon as [vs [-> Hk]].
+      rewrite (filter_init_all B _ present HB Hc) in Hch.
       rewrite HBn in *. apply choose_some in Hch as [Hdesc [Hall Hmin]].
       pose proof Hdesc as Hd'. apply in_descendants in Hd' as [Hchild Hanc].
       pose proof (find_class_unique h child wf_names Hchild) as Hfc.
@@ -532,6 +561,19 @@ Section Main.
       + rewrite <- (has_all_ext child _ _ Hreq). exact Hall.
       + apply forallb_forall. intros C HC. destruct (has_all C (sf_keys kvs)) eqn:E; [|reflexivity]. simpl.
         apply Nat.leb_le, Hmin; [exact HC|]. rewrite (has_all_ext C _ _ Hreq). exact E.
+  Qed.
+
+  (* ---------- C14_drop (class part), with or without init=False fields ---------- *)
+  Theorem drop_exact_thm base dropo kvs v :
+    sf_get TYPE_KEY kvs = None -> model_drop base dropo = true ->
+    fser base dropo (SMap kvs) = Ok v ->
+    exists B fs, find_class h base = Some B /\ v = VObj base fs /\ vf_keys fs = field_names B.
+  Proof.
+    intros Ht Hd H. rewrite (fser_plain _ _ _ Ht) in H.
+    destruct (find_class h base) as [B|] eqn:EB; [|discriminate].
+    pose proof (find_class_some _ _ _ EB) as [HB HBn]. rewrite <- HBn in Hd.
+    apply build_inv in H as [present [Hc [[_ Hcon]|[_ [Hd' _]]]]]; [|congruence].
+    apply construct_inv in Hcon as [vs [-> Hk]]. exists B, vs. rewrite HBn. auto.
   Qed.
 
   (* ---------- an instance's own dict, decoded as its own class ---------- *)
@@ -671,6 +713,7 @@ Section Main.
       pose proof (req_keys B _ _ present HB Ht HcB) as Hreq. rewrite Hkeys in Hreq.
       assert (Hddesc : In d (descendants h (c_name B))).
       { apply in_descendants. split; [exact Hd|]. rewrite HBn. exact Hanc. }
+      pose proof (filter_init_all B _ present HB HcB) as Hfi.
       destruct (chs (c_name B) (extras_of B (field_names d) ++ map fst present)%list) as [child|] eqn:Ech.
       + pose proof (choose_some _ _ _ Ech) as [Hcd [Hca Hmin]].
         rewrite (has_all_ext child _ _ Hreq) in Hca.
@@ -687,7 +730,7 @@ Section Main.
             pose proof (find_class_unique h d wf_names Hd) as U2. rewrite E in U1. congruence. }
           subst child. destruct (Hfull child_drop) as [p2 [Hc2 Hcon]].
           rewrite HBn in *.
-          rewrite (build_child _ _ B dropo present d p2); try rewrite HBn; auto.
+          rewrite (build_child _ _ B dropo present d p2); try rewrite Hfi; try rewrite HBn; auto.
         * exfalso. apply negb_true_iff in Hc2. unfold same_fields in Hc2.
           rewrite Hca in Hc2. simpl in Hc2.
           rewrite (nodup_same_fields child d (wf_fields_nodup d Hd) Hca Hle) in Hc2. discriminate.
@@ -836,6 +879,8 @@ Section Main.
   Qed.
 End Main.
 
+From Coq Require Import Permutation.
+
 (* ====================================================================================== *)
 (* The model instantiated with the REGENERATED facts                                        *)
 (* ====================================================================================== *)
@@ -861,59 +906,52 @@ Lemma bridge_type_key : DC_TYPE_KEY = SPEC_TYPE_KEY.
 Proof. reflexivity. Qed.
 
 Lemma result_admissible_gen h modname enum base dropo kvs v :
-  wf_hier_gen h = true -> enum_ok h enum -> sf_get DC_TYPE_KEY kvs = None ->
+  wf_hier_gen h = true -> init_only h = true -> enum_ok h enum -> sf_get DC_TYPE_KEY kvs = None ->
   from_ser_gen h modname enum base dropo (SMap kvs) = Ok v ->
   exists R fs r, v = VObj R fs /\ find_class h R = Some r /\ vf_keys fs = field_names r
                  /\ admissible h base (sf_keys kvs) (eff_drop_gen h base dropo) R = true.
 Proof.
-  intros Hwf He. unfold from_ser_gen, eff_drop_gen.
+  intros Hwf Hi He. unfold from_ser_gen, eff_drop_gen.
   apply result_admissible; auto using bridge_sort_key, bridge_superset_cmp, bridge_pick.
 Qed.
 
 Lemma superset_gen h modname enum base dropo kvs R fs B :
-  wf_hier_gen h = true -> enum_ok h enum -> sf_get DC_TYPE_KEY kvs = None ->
+  wf_hier_gen h = true -> init_only h = true -> enum_ok h enum -> sf_get DC_TYPE_KEY kvs = None ->
   find_class h base = Some B -> has_all B (sf_keys kvs) = false -> eff_drop_gen h base dropo = false ->
   from_ser_gen h modname enum base dropo (SMap kvs) = Ok (VObj R fs) ->
   min_superset h base (sf_keys kvs) R = true.
 Proof.
-  intros Hwf He Ht HB Hx Hd H.
-  destruct (result_admissible_gen _ _ _ _ _ _ _ Hwf He Ht H) as [R' [fs' [r [Hv [_ [_ Ha]]]]]].
+  intros Hwf Hi He Ht HB Hx Hd H.
+  destruct (result_admissible_gen _ _ _ _ _ _ _ Hwf Hi He Ht H) as [R' [fs' [r [Hv [_ [_ Ha]]]]]].
   injection Hv as <- <-. unfold admissible in Ha. rewrite HB, Hd, Hx in Ha. exact Ha.
 Qed.
 
 Lemma no_extras_gen h modname enum base dropo kvs R fs B :
-  wf_hier_gen h = true -> enum_ok h enum -> sf_get DC_TYPE_KEY kvs = None ->
+  wf_hier_gen h = true -> init_only h = true -> enum_ok h enum -> sf_get DC_TYPE_KEY kvs = None ->
   find_class h base = Some B -> has_all B (sf_keys kvs) = true ->
   from_ser_gen h modname enum base dropo (SMap kvs) = Ok (VObj R fs) ->
   R = base.
 Proof.
-  intros Hwf He Ht HB Hx H.
-  destruct (result_admissible_gen _ _ _ _ _ _ _ Hwf He Ht H) as [R' [fs' [r [Hv [_ [_ Ha]]]]]].
+  intros Hwf Hi He Ht HB Hx H.
+  destruct (result_admissible_gen _ _ _ _ _ _ _ Hwf Hi He Ht H) as [R' [fs' [r [Hv [_ [_ Ha]]]]]].
   injection Hv as <- <-. unfold admissible in Ha. rewrite HB, Hx, orb_true_r in Ha. apply String.eqb_eq, Ha.
 Qed.
 
 Lemma identified_gen h modname enum base dropo d fs :
-  wf_hier_gen h = true -> enum_ok h enum ->
+  wf_hier_gen h = true -> init_only h = true -> enum_ok h enum ->
   In d h -> identified h base d = true -> flat_class d = true -> flat_fields fs = true ->
   vf_keys fs = field_names d -> eff_drop_gen h base dropo = false ->
   from_ser_gen h modname enum base dropo (to_ser_gen modname false (VObj (c_name d) fs)) = Ok (VObj (c_name d) fs).
 Proof.
-  intros Hwf He. unfold from_ser_gen, to_ser_gen, eff_drop_gen.
+  intros Hwf Hi He. unfold from_ser_gen, to_ser_gen, eff_drop_gen.
   apply identified_thm; auto using bridge_sort_key, bridge_superset_cmp, bridge_pick.
 Qed.
 
 Lemma drop_exact_base_gen h modname enum base dropo kvs v :
-  wf_hier_gen h = true -> enum_ok h enum -> sf_get DC_TYPE_KEY kvs = None ->
-  eff_drop_gen h base dropo = true ->
+  sf_get DC_TYPE_KEY kvs = None -> eff_drop_gen h base dropo = true ->
   from_ser_gen h modname enum base dropo (SMap kvs) = Ok v ->
   exists B fs, find_class h base = Some B /\ v = VObj base fs /\ vf_keys fs = field_names B.
-Proof.
-  intros Hwf He Ht Hd H.
-  destruct (result_admissible_gen _ _ _ _ _ _ _ Hwf He Ht H) as [R [fs [r [Hv [Hr [Hk Ha]]]]]].
-  unfold admissible in Ha. destruct (find_class h base) as [B|] eqn:EB; [|discriminate].
-  rewrite Hd in Ha. simpl in Ha. apply String.eqb_eq in Ha. subst R.
-  exists B, fs. rewrite EB in Hr. injection Hr as <-. auto.
-Qed.
+Proof. unfold from_ser_gen, eff_drop_gen. apply drop_exact_thm. Qed.
 
 Lemma drop_flat_gen h modname enum base dropo kvs B :
   wf_hier_gen h = true ->
@@ -936,13 +974,36 @@ Qed.
 (* the full-strength claim ("at every nesting level") is false of the faithful model: a dataclass inside a List[..]
    is encoded by the registered cls.to_dict with default arguments, so its type entry is never written *)
 Definition refute_h : hier :=
-  [ mkc "Base" [] [mkf "a" TInt (Some (VInt 0))] (Some true);
-    mkc "D1" ["Base"] [mkf "a" TInt (Some (VInt 0)); mkf "b" TInt (Some (VInt 0))] None;
-    mkc "D3" ["Base"] [mkf "a" TInt (Some (VInt 0)); mkf "b" TInt (Some (VInt 0))] None;
-    mkc "H" [] [mkf "xs" (TList "Base") (Some (VList VNil))] None ].
+  [ mkc "Base" [] [mkf "a" TInt (Some (VInt 0)) true] (Some true);
+    mkc "D1" ["Base"] [mkf "a" TInt (Some (VInt 0)) true; mkf "b" TInt (Some (VInt 0)) true] None;
+    mkc "D3" ["Base"] [mkf "a" TInt (Some (VInt 0)) true; mkf "b" TInt (Some (VInt 0)) true] None;
+    mkc "H" [] [mkf "xs" (TList "Base") (Some (VList VNil)) true] None ].
 Definition refute_enum (b : string) : list string := rev (map c_name (descendants refute_h b)).
 Definition refute_v : value :=
   VObj "H" (VCons "xs" (VList (VCons "" (VObj "D1" (VCons "a" (VInt 1) (VCons "b" (VInt 2) VNil))) VNil)) VNil).
+
+(* ... and so is "identified => recovered" once a class has a field(init=False): to_dict writes it, the base does not
+   know it, and the search only looks at INIT fields of the candidates, so no class qualifies *)
+Definition refute_init_h : hier :=
+  [ mkc "Base" [] [mkf "a" TInt (Some (VInt 0)) true] (Some true);
+    mkc "D1" ["Base"] [mkf "a" TInt (Some (VInt 0)) true; mkf "b" TInt (Some (VInt 0)) true;
+                       mkf "n" TInt (Some (VInt 70)) false] None ].
+Definition refute_init_enum (b : string) : list string := map c_name (descendants refute_init_h b).
+Definition refute_init_d : cdecl :=
+  mkc "D1" ["Base"] [mkf "a" TInt (Some (VInt 0)) true; mkf "b" TInt (Some (VInt 0)) true;
+                     mkf "n" TInt (Some (VInt 70)) false] None.
+Definition refute_init_fs : vfields := VCons "a" (VInt 1) (VCons "b" (VInt 2) (VCons "n" (VInt 9) VNil)).
+
+Lemma identified_refuted :
+  exists h modname enum base dropo d fs,
+    wf_hier_gen h = true /\ enum_ok h enum /\ In d h /\ identified h base d = true /\ flat_class d = true
+    /\ flat_fields fs = true /\ vf_keys fs = field_names d /\ eff_drop_gen h base dropo = false
+    /\ from_ser_gen h modname enum base dropo (to_ser_gen modname false (VObj (c_name d) fs)) = Err (Raise "RuntimeError").
+Proof.
+  exists refute_init_h, "m", refute_init_enum, "Base", None, refute_init_d, refute_init_fs.
+  split; [vm_compute; reflexivity|]. split; [intros b n; reflexivity|]. split; [right; left; reflexivity|].
+  repeat split; vm_compute; reflexivity.
+Qed.
 
 Lemma refute_enum_ok : enum_ok refute_h refute_enum.
 Proof. intros b n. unfold refute_enum. rewrite <- in_rev. reflexivity. Qed.
@@ -956,3 +1017,25 @@ Proof.
   split; [vm_compute; reflexivity|]. split; [exact refute_enum_ok|]. split; [vm_compute; reflexivity|].
   vm_compute. discriminate.
 Qed.
+
+Lemma perm_enum_ok h enum :
+  (forall b, Permutation (enum b) (map c_name (descendants h b))) -> enum_ok h enum.
+Proof.
+  intros H b n. split; intros X.
+  - eapply Permutation_in; [apply H|exact X].
+  - eapply Permutation_in; [apply Permutation_sym, H|exact X].
+Qed.
+
+(* the concrete inputs of Example C14_nonvacuous *)
+Definition ex_h : hier :=
+  [ mkc "Base" [] [mkf "a" TInt (Some (VInt 10)) true] (Some true);
+    mkc "D1" ["Base"] [mkf "a" TInt (Some (VInt 10)) true; mkf "b" TInt (Some (VInt 20)) true] None;
+    mkc "D3" ["Base"] [mkf "a" TInt (Some (VInt 10)) true; mkf "b" TInt (Some (VInt 20)) true] None;
+    mkc "G" ["D1"] [mkf "a" TInt (Some (VInt 10)) true; mkf "b" TInt (Some (VInt 20)) true; mkf "c" TInt (Some (VInt 30)) true] (Some false);
+    mkc "H" [] [mkf "x" (TDc "Base") None true; mkf "xs" (TList "Base") (Some (VList VNil)) true] None;
+    mkc "O" [] [mkf "h" (TDc "H") None true] None ].
+Definition ex_enum (b : string) : list string := rev (map c_name (descendants ex_h b)).
+Definition ex_g : value := VObj "G" (VCons "a" (VInt 1) (VCons "b" (VInt 2) (VCons "c" (VInt 3) VNil))).
+Definition ex_d1 : value := VObj "D1" (VCons "a" (VInt 1) (VCons "b" (VInt 2) VNil)).
+Definition ex_o : value := VObj "O" (VCons "h" (VObj "H" (VCons "x" ex_g (VCons "xs" (VList VNil) VNil))) VNil).
+
